@@ -253,6 +253,7 @@ pub fn run(ctx: &Ctx) -> i32 {
         random_cases: tier.pick(1_000_000, 60_000_000),
         build_random: &|e| build(e, &Force::default()),
         classify: &|c, j, t: &Tag, s| classify(c, j, t, s),
+        all_quirks: false,
     }
     .run();
     stats.exhaustive_subspaces.insert("form x (operand byte, bit number, C)".into(), fs.len() as u64 * 4096);
